@@ -56,7 +56,8 @@ def gen_members(rng, benign):
             kind = rng.choice(['file', 'file', 'file', 'dir', 'sym', 'sym', 'hard', 'special'])
             name = rng.choice(['f%d' % i, 'd0/f%d' % i, '../escaped%d' % i, '../../esc%d' % i, '/tmp/c18_abs_%d' % i, 'a/../../e%d' % i,
                                'd0/../../e%d' % i, './ok%d' % i, '../{DEST}/back%d' % i, 'x/./y/../z%d' % i, '..', 'd0//f%d' % i] +
-                              [l + '/via%d' % i for l in links])
+                              [l + '/via%d' % i for l in links] + [l + '/../up%d' % i for l in links] +
+                              [l + '/decoy.txt' for l in links])
             link = ''
             if kind in ('sym', 'hard'):
                 # hard-link targets are resolved by tarfile from the archive root, symbolic ones from the link's directory:
@@ -87,6 +88,19 @@ def cases(rng, tier):
                             {'kind': 'sym', 'name': 'l', 'linkname': 'd/../../..', 'content': 2},
                             {'kind': 'sym', 'name': 'x', 'linkname': '.', 'content': 3},
                             {'kind': 'file', 'name': 'l/pwn', 'linkname': '', 'content': 4}], 'benign': False, 'gz': False})
+    # escapes that only exist once EARLIER members of the same archive are on disk (a filter run against the empty
+    # directory, or against names only, accepts every member of these):
+    out.append({'members': [{'kind': 'sym', 'name': 'd1/d2/up', 'linkname': '../..', 'content': 1},
+                            {'kind': 'file', 'name': 'd1/d2/up/../escaped_A.txt', 'linkname': '', 'content': 2}], 'benign': False, 'gz': False})
+    out.append({'members': [{'kind': 'sym', 'name': 'd1/up', 'linkname': '..', 'content': 1},
+                            {'kind': 'file', 'name': 'd1/up/../decoy.txt', 'linkname': '', 'content': 2}], 'benign': False, 'gz': True})
+    for tail in ('victim.txt', 'decoy.txt', 'outside_dir/keep.txt'):
+        out.append({'members': [{'kind': 'sym', 'name': 'here', 'linkname': '.', 'content': 1},
+                                {'kind': 'sym', 'name': 'esc', 'linkname': 'here/..', 'content': 2},
+                                {'kind': 'file', 'name': 'esc/' + tail, 'linkname': '', 'content': 3}], 'benign': False, 'gz': False})
+        out.append({'members': [{'kind': 'sym', 'name': 'd0/here', 'linkname': '.', 'content': 1},
+                                {'kind': 'sym', 'name': 'd0/esc', 'linkname': 'here/../..', 'content': 2},
+                                {'kind': 'file', 'name': 'd0/esc/' + tail, 'linkname': '', 'content': 3}], 'benign': False, 'gz': False})
     # a link to a file that exists outside, then a regular member of the same name writing through it; every depth of
     # the link's own directory, because a filter that resolves hard-link targets from the wrong base is depth-sensitive
     for target in ('../decoy.txt', '../outside_dir/keep.txt', '../../grand.txt'):
